@@ -51,6 +51,11 @@ def gen_grammar(rng):
         names = rng.sample(NAMES, k)
         chars = "abcdefgh"
         tdefs = {n: cfg.TDef("str", chars[i]) for i, n in enumerate(names)}
+        if rng.random() < 0.3:
+            # lexical ambiguity: one terminal is a regex that also matches another terminal's text
+            # (several tokens at one position; GLR pursues them all)
+            i, j = rng.sample(range(k), 2)
+            tdefs[names[i]] = cfg.TDef("re", "[%s%s]" % (chars[i], chars[j]))
         nts = cfg.NT_NAMES[:nt]
         prods = []
         for n in nts:
@@ -105,7 +110,7 @@ def search_multi_revisit(rng, mon, still_running, found, limit=40):
         g = gen_fork_grammar(rng)
         if g is None:
             continue
-        alph = "".join(g.tdefs[t].text for t in g.terms)[:3]
+        alph = "".join(dict.fromkeys(ch for t in g.terms for ch in g.tdefs[t].text if ch.isalpha()))[:3]
         try:
             p = pgx.glr(pgx.grammar(g.text()))
         except Exception:  # noqa: BLE001
@@ -162,7 +167,7 @@ def run(ctx):
             g = gen_grammar(ctx.rng)
             if g is None:
                 continue
-            alph = "".join(g.tdefs[t].text for t in g.terms)[:3]
+            alph = "".join(dict.fromkeys(ch for t in g.terms for ch in g.tdefs[t].text if ch.isalpha()))[:3]
             inputs = [w for w in cfg.all_strings(alph, 4) if cfg.Chart(g, w, skip=cfg.skip_none).is_sentence()][:12]
             meta = {}
             if ctx.rng.random() < 0.5:
@@ -341,6 +346,17 @@ def record(item):
                                         rec["ambiguous"] += 1
                                 else:
                                     rec["forests"].append([w, o.kind])
+                            # the documented pass-through token recognition callback: same forests, same order
+                            try:
+                                pc = pgx.glr(pg, custom_token_recognition=lambda head, get_tokens: get_tokens())
+                                for w in item["inputs"][:6]:
+                                    o = glrobs.parse_glr(pc, w)
+                                    if o.kind == "forest" and not o.loop:
+                                        rec["forests"].append(["callback", w, o.len, [o.forest[i].to_str() for i in range(min(o.len, 12))]])
+                                    else:
+                                        rec["forests"].append(["callback", w, o.kind])
+                            except Exception as e:  # noqa: BLE001
+                                rec["errors"].append("callback:" + type(e).__name__)
                 except Exception as e:  # noqa: BLE001
                     rec["errors"].append(type(e).__name__ + ":" + str(e)[:100])
         rec["sr"] = [x for x in rec["sr"] if x] and rec["sr"]
